@@ -487,3 +487,66 @@ TRUSTED_BASE = [
     "L0 (PyTRS/Rx.lean) = CPython re on the operator subset: validated by differential testing every run",
     "hand-written glue model tied to /repo by the correspondence harness (sampling)",
 ]
+
+
+# ----------------------------------------------------------------------------- implementation line coverage (evidence)
+
+class ImplCoverage:
+    """Which lines of /repo/pytrs did this check execute?  (sys.monitoring, Python 3.12: each location reports once.)
+    Reported in the evidence as {module: [lines hit, executable lines]}: how much of the implementation the generated
+    inputs reached — the correspondence and the oracles can only see what the generators exercise."""
+    TOOL = 3
+
+    def __init__(self, root='/repo/pytrs'):
+        self.root = root
+        self.hits = set()
+        self.on = False
+
+    def start(self):
+        mon = getattr(sys, 'monitoring', None)
+        if mon is None:
+            return
+        try:
+            mon.use_tool_id(self.TOOL, 'verif-cov')
+        except ValueError:
+            return
+        root = self.root
+
+        def on_line(code, line):
+            if code.co_filename.startswith(root):
+                self.hits.add((code.co_filename, line))
+            return mon.DISABLE
+        mon.register_callback(self.TOOL, mon.events.LINE, on_line)
+        mon.set_events(self.TOOL, mon.events.LINE)
+        self.on = True
+
+    def stop(self):
+        if not self.on:
+            return {}
+        mon = sys.monitoring
+        mon.set_events(self.TOOL, 0)
+        mon.register_callback(self.TOOL, mon.events.LINE, None)
+        mon.free_tool_id(self.TOOL)
+        self.on = False
+        out = {}
+        for dirpath, _dirs, files in os.walk(self.root):
+            for fn in files:
+                if not fn.endswith('.py'):
+                    continue
+                path = os.path.join(dirpath, fn)
+                try:
+                    top = compile(open(path, encoding='utf-8').read(), path, 'exec')
+                except Exception:  # noqa
+                    continue
+                lines = set()
+                stack = [top]
+                while stack:
+                    co = stack.pop()
+                    if co is not top:          # function / class bodies only: module-level lines run at import time
+                        lines.update(l for _s, _e, l in co.co_lines() if l is not None)
+                    stack.extend(c for c in co.co_consts if hasattr(c, 'co_lines'))
+                if not lines:
+                    continue
+                hit = len([1 for (f, l) in self.hits if f == path and l in lines])
+                out[os.path.relpath(path, self.root)] = [hit, len(lines)]
+        return out
